@@ -40,7 +40,7 @@ fn k_for(t: Tier, sk: RSkel) -> usize {
         Tier::Thorough => {
             if sk.entries * sk.alts == 1 {
                 4
-            } else if sk.entries * sk.alts <= 2 {
+            } else if sk.entries * sk.alts <= 4 {
                 3
             } else {
                 2
@@ -215,8 +215,10 @@ fn check_c13(text: &str, model: &MField, subst: bool) -> Vec<Viol> {
             out.push(viol("alternatives-sorted", ctx(&format!("alternatives {:?}", e.iter().map(|r| r.name.clone()).collect::<Vec<_>>()))));
         }
     }
+    // entries are ordered by the package name of their first alternative; the statement says only "sorted", so
+    // ties on that name (decided by the implementation through versions / later alternatives) are not constrained
     let names: Vec<Vec<String>> = m2.entries.iter().map(|e| e.iter().map(|r| r.name.clone()).collect()).collect();
-    if !names.windows(2).all(|w| w[0] <= w[1]) {
+    if !names.windows(2).all(|w| w[0].first() <= w[1].first()) {
         out.push(viol("entries-sorted", ctx(&format!("entry name lists {:?}", names))));
     }
     let again = w.wrap_and_sort().to_string();
